@@ -15,9 +15,9 @@ structure AttachInv (s : State) : Prop where
   rep : s.repaired = true
   fresh : ∀ g, s.next ≤ g → s.gen g = {}
   old : ∀ g, g < s.next → s.mgr ≠ some g → (s.gen g).att = .finished ∧ (s.gen g).helper = .done ∧ (s.gen g).deleted = true
-  empty : s.mgr = none → s.topic = none ∧ s.mbT = []
+  empty : s.mgr = none → (s.tdead = false → s.topic = none) ∧ s.mbT = []
   cur : ∀ g, s.mgr = some g →
-    g < s.next ∧ s.mbT = expectedMb g (s.gen g) ∧ s.topic = expectedTopic g (s.gen g) ∧
+    g < s.next ∧ s.mbT = expectedMb g (s.gen g) ∧ (s.tdead = false → s.topic = expectedTopic g (s.gen g)) ∧
     (s.gen g).att ≠ .none ∧ (s.gen g).helper ≠ .done ∧
     ((s.gen g).helper ≠ .none → (s.gen g).att = .finished) ∧
     ((s.gen g).deleted = true ↔ (s.gen g).helper ≠ .none)
@@ -54,7 +54,7 @@ namespace Deltio.P1
     invariant if the new values satisfy the `cur` clause. -/
 theorem inv_update_cur {s : State} (h : AttachInv s) (g : Nat) (hm : s.mgr = some g) (v : Gen) (mb : List TMsg)
     (t : Option Nat) (d : List Nat) (hd : ∀ x ∈ d, x < s.next)
-    (hv : mb = expectedMb g v ∧ t = expectedTopic g v ∧ v.att ≠ .none ∧ v.helper ≠ .done ∧
+    (hv : mb = expectedMb g v ∧ (s.tdead = false → t = expectedTopic g v) ∧ v.att ≠ .none ∧ v.helper ≠ .done ∧
           (v.helper ≠ .none → v.att = .finished) ∧ (v.deleted = true ↔ v.helper ≠ .none)) :
     AttachInv { s with mbT := mb, topic := t, gen := upd s.gen g v, dels := d } := by
   have hlt := (h.cur g hm).1
@@ -73,6 +73,10 @@ theorem inv_update_cur {s : State} (h : AttachInv s) (g : Nat) (hm : s.mgr = som
     rw [upd_same]
     exact ⟨hlt, hv⟩
   · exact hd
+
+theorem helper_none_of_att {s : State} {g : Nat} (c6 : (s.gen g).helper ≠ .none → (s.gen g).att = .finished)
+    (ha : (s.gen g).att ≠ .finished) : (s.gen g).helper = .none := by
+  cases hx : (s.gen g).helper <;> first | rfl | (exact absurd (c6 (by rw [hx]; simp)) ha)
 
 theorem inv_step {s s' : State} (h : AttachInv s) (l : Label) (hs : step s l = some s') : AttachInv s' := by
   cases l with
@@ -93,8 +97,9 @@ theorem inv_step {s s' : State} (h : AttachInv s) (l : Label) (hs : step s l = s
       · intro hc; cases hc
       · intro x hx
         cases hx
-        rw [upd_same, ht, hmb]
-        simp [expectedMb, expectedTopic]
+        rw [upd_same, hmb]
+        refine ⟨by omega, by simp [expectedMb], ?_, by simp, by simp, by simp, by simp⟩
+        intro hd; rw [ht hd]; simp [expectedTopic]
       · intro d hd; have := h.dl d hd; omega
     · cases hs
   | attachSend g =>
@@ -104,11 +109,10 @@ theorem inv_step {s s' : State} (h : AttachInv s) (l : Label) (hs : step s l = s
       simp only [Option.some.injEq] at hs; subst hs
       have hm := active_is_cur h g (Or.inl (by rw [hg]; simp))
       obtain ⟨_, c2, c3, c4, c5, c6, c7⟩ := h.cur g hm
-      have hh : (s.gen g).helper = .none := by
-        cases hx : (s.gen g).helper <;> first | rfl | (have := c6 (by rw [hx]; simp); rw [hg] at this; cases this)
-      have := inv_update_cur h g hm { s.gen g with att := .sent } (s.mbT ++ [.attach g]) s.topic s.dels h.dl
-        (by rw [c2, c3]; simp [expectedMb, expectedTopic, hg, hh]; simpa [hh] using c7)
-      exact this
+      have hh := helper_none_of_att c6 (by rw [hg]; simp)
+      exact inv_update_cur h g hm { s.gen g with att := .sent } (s.mbT ++ [.attach g]) s.topic s.dels h.dl
+        ⟨by rw [c2]; simp [expectedMb, hg, hh], fun hd => (by rw [c3 hd]; simp [expectedTopic, hg]), by simp, by simp [hh], by simp [hh],
+         by simpa [hh] using c7⟩
     · cases hs
   | topicTake =>
     simp only [step] at hs
@@ -116,33 +120,30 @@ theorem inv_step {s s' : State} (h : AttachInv s) (l : Label) (hs : step s l = s
     · cases hs
     · rename_i g rest hmb
       simp only [Option.some.injEq] at hs; subst hs
-      -- the mailbox is non-empty, so something is registered
       have hex : ∃ c, s.mgr = some c := by
         cases hm : s.mgr with
         | none => have := (h.empty hm).2; rw [this] at hmb; cases hmb
         | some c => exact ⟨c, rfl⟩
       obtain ⟨c, hm⟩ := hex
-      · 
-        obtain ⟨_, c2, c3, c4, c5, c6, c7⟩ := h.cur c hm
-        rw [c2] at hmb
-        -- head is `attach g`: the current generation's attach is `sent`
-        have hsent : (s.gen c).att = .sent ∧ g = c := by
-          unfold expectedMb at hmb
-          by_cases ha : (s.gen c).att = .sent
-          · simp [ha] at hmb; exact ⟨ha, hmb.1.symm⟩
-          · simp [ha] at hmb
-            by_cases hh : (s.gen c).helper = .sent
-            · simp [hh] at hmb
-            · simp [hh] at hmb
-        obtain ⟨ha, rfl⟩ := hsent
-        have hh : (s.gen g).helper = .none := by
-          cases hx : (s.gen g).helper <;> first | rfl | (have := c6 (by rw [hx]; simp); rw [ha] at this; cases this)
-        have hrest : rest = [] := by
-          simp [expectedMb, ha, hh] at hmb; exact hmb
-        have htop : s.topic = none := by rw [c3]; simp [expectedTopic, ha]
-        have := inv_update_cur h g hm { s.gen g with att := .replied } rest (if s.topic = none then some g else s.topic) s.dels h.dl
-          (by rw [hrest, htop]; simp [expectedMb, expectedTopic, hh]; simpa [hh] using c7)
-        exact this
+      obtain ⟨_, c2, c3, c4, c5, c6, c7⟩ := h.cur c hm
+      rw [c2] at hmb
+      have hsent : (s.gen c).att = .sent ∧ g = c := by
+        unfold expectedMb at hmb
+        by_cases ha : (s.gen c).att = .sent
+        · simp [ha] at hmb; exact ⟨ha, hmb.1.symm⟩
+        · simp [ha] at hmb
+          by_cases hh : (s.gen c).helper = .sent
+          · simp [hh] at hmb
+          · simp [hh] at hmb
+      obtain ⟨ha, rfl⟩ := hsent
+      have hh := helper_none_of_att c6 (by rw [ha]; simp)
+      have hrest : rest = [] := by
+        simp [expectedMb, ha, hh] at hmb; exact hmb
+      exact inv_update_cur h g hm { s.gen g with att := .replied } rest (if s.topic = none then some g else s.topic) s.dels h.dl
+        ⟨by rw [hrest]; simp [expectedMb, hh], fun hd => by
+            have : s.topic = none := by rw [c3 hd]; simp [expectedTopic, ha]
+            rw [this]; simp [expectedTopic, hh],
+         by simp, by simp [hh], by simp [hh], by simpa [hh] using c7⟩
     · rename_i g rest hmb
       simp only [Option.some.injEq] at hs; subst hs
       have hex : ∃ c, s.mgr = some c := by
@@ -150,22 +151,21 @@ theorem inv_step {s s' : State} (h : AttachInv s) (l : Label) (hs : step s l = s
         | none => have := (h.empty hm).2; rw [this] at hmb; cases hmb
         | some c => exact ⟨c, rfl⟩
       obtain ⟨c, hm⟩ := hex
-      · 
-        obtain ⟨_, c2, c3, c4, c5, c6, c7⟩ := h.cur c hm
-        rw [c2] at hmb
-        have hsent : (s.gen c).helper = .sent ∧ g = c ∧ rest = [] := by
-          unfold expectedMb at hmb
-          by_cases ha : (s.gen c).att = .sent
-          · simp [ha] at hmb
-          · simp [ha] at hmb
-            by_cases hh : (s.gen c).helper = .sent
-            · simp [hh] at hmb; exact ⟨hh, hmb.1.symm, hmb.2⟩
-            · simp [hh] at hmb
-        obtain ⟨hh, rfl, hrest⟩ := hsent
-        have ha : (s.gen g).att = .finished := c6 (by rw [hh]; simp)
-        have := inv_update_cur h g hm { s.gen g with helper := .removed } rest none s.dels h.dl
-          (by rw [hrest]; simp [expectedMb, expectedTopic, ha]; simpa [hh] using c7)
-        exact this
+      obtain ⟨_, c2, c3, c4, c5, c6, c7⟩ := h.cur c hm
+      rw [c2] at hmb
+      have hsent : (s.gen c).helper = .sent ∧ g = c ∧ rest = [] := by
+        unfold expectedMb at hmb
+        by_cases ha : (s.gen c).att = .sent
+        · simp [ha] at hmb
+        · simp [ha] at hmb
+          by_cases hh : (s.gen c).helper = .sent
+          · simp [hh] at hmb; exact ⟨hh, hmb.1.symm, hmb.2⟩
+          · simp [hh] at hmb
+      obtain ⟨hh, rfl, hrest⟩ := hsent
+      have ha : (s.gen g).att = .finished := c6 (by rw [hh]; simp)
+      exact inv_update_cur h g hm { s.gen g with helper := .removed } rest none s.dels h.dl
+        ⟨by rw [hrest]; simp [expectedMb, ha], fun _ => (by simp [expectedTopic]), by simp [ha], by simp, by simp [ha],
+         by simpa [hh] using c7⟩
   | attachFinish g =>
     simp only [step] at hs
     split at hs
@@ -173,10 +173,10 @@ theorem inv_step {s s' : State} (h : AttachInv s) (l : Label) (hs : step s l = s
       simp only [Option.some.injEq] at hs; subst hs
       have hm := active_is_cur h g (Or.inl (by rw [hg]; simp))
       obtain ⟨_, c2, c3, c4, c5, c6, c7⟩ := h.cur g hm
-      have hh : (s.gen g).helper = .none := by
-        cases hx : (s.gen g).helper <;> first | rfl | (have := c6 (by rw [hx]; simp); rw [hg] at this; cases this)
+      have hh := helper_none_of_att c6 (by rw [hg]; simp)
       have := inv_update_cur h g hm { s.gen g with att := .finished } s.mbT s.topic s.dels h.dl
-        (by rw [c2, c3]; simp [expectedMb, expectedTopic, hg, hh]; simpa [hh] using c7)
+        ⟨by rw [c2]; simp [expectedMb, hg, hh], fun hd => (by rw [c3 hd]; simp [expectedTopic, hg, hh]), by simp, by simp [hh], by simp,
+         by simpa [hh] using c7⟩
       simpa using this
     · cases hs
   | deleteStart =>
@@ -214,8 +214,10 @@ theorem inv_step {s s' : State} (h : AttachInv s) (l : Label) (hs : step s l = s
           obtain ⟨_, c2, c3, c4, c5, c6, c7⟩ := h.cur g hm
           have hh : (s.gen g).helper = .none := by
             cases hx : (s.gen g).helper <;> first | rfl | (have := c7.mpr (by rw [hx]; simp); rw [hd'] at this; cases this)
-          have := inv_update_cur h g hm { s.gen g with deleted := true, helper := .toSend } s.mbT s.topic (s.dels.eraseIdx i) (fun x hx => h.dl x (List.mem_of_mem_eraseIdx hx))
-            (by rw [c2, c3]; simp [expectedMb, expectedTopic, hfin, hh])
+          have := inv_update_cur h g hm { s.gen g with deleted := true, helper := .toSend } s.mbT s.topic (s.dels.eraseIdx i)
+            (fun x hx => h.dl x (List.mem_of_mem_eraseIdx hx))
+            ⟨by rw [c2]; simp [expectedMb, hfin, hh], fun hd => (by rw [c3 hd]; simp [expectedTopic, hfin, hh]), by simp [hfin], by simp,
+             by simp [hfin], by simp⟩
           simpa using this
   | helperSend g =>
     simp only [step] at hs
@@ -225,9 +227,9 @@ theorem inv_step {s s' : State} (h : AttachInv s) (l : Label) (hs : step s l = s
       have hm := active_is_cur h g (Or.inr (Or.inl (by rw [hg]; simp)))
       obtain ⟨_, c2, c3, c4, c5, c6, c7⟩ := h.cur g hm
       have ha : (s.gen g).att = .finished := c6 (by rw [hg]; simp)
-      have := inv_update_cur h g hm { s.gen g with helper := .sent } (s.mbT ++ [.remove g]) s.topic s.dels h.dl
-        (by rw [c2, c3]; simp [expectedMb, expectedTopic, hg, ha]; simpa [hg] using c7)
-      exact this
+      exact inv_update_cur h g hm { s.gen g with helper := .sent } (s.mbT ++ [.remove g]) s.topic s.dels h.dl
+        ⟨by rw [c2]; simp [expectedMb, hg, ha], fun hd => (by rw [c3 hd]; simp [expectedTopic, hg, ha]), by simp [ha], by simp, by simp [ha],
+         by simpa [hg] using c7⟩
     · cases hs
   | helperFinish g =>
     simp only [step] at hs
@@ -248,10 +250,81 @@ theorem inv_step {s s' : State} (h : AttachInv s) (l : Label) (hs : step s l = s
         · rw [upd_other _ _ _ _ hxg]
           exact h.old x hx (by rw [hm]; intro hc; cases hc; exact hxg rfl)
       · intro _
-        rw [c2, c3]; simp [expectedMb, expectedTopic, hg, ha]
+        refine ⟨fun hd => (by rw [c3 hd]; simp [expectedTopic, hg]), (by rw [c2]; simp [expectedMb, hg, ha])⟩
       · intro x hx; cases hx
       · exact h.dl
     · cases hs
+  | topicDie =>
+    simp only [step] at hs
+    split at hs
+    · cases hs
+    · simp only [Option.some.injEq] at hs; subst hs
+      constructor <;> dsimp only
+      · exact h.rep
+      · exact h.fresh
+      · exact h.old
+      · intro hn; exact ⟨fun hc => (by cases hc), (h.empty hn).2⟩
+      · intro g hg
+        obtain ⟨a, b, _, d, e, f, g'⟩ := h.cur g hg
+        exact ⟨a, b, fun hc => (by cases hc), d, e, f, g'⟩
+      · exact h.dl
+  | retarget g =>
+    simp only [step] at hs
+    split at hs
+    · rename_i hg
+      obtain ⟨_, hm, hatt⟩ := hg
+      simp only [Option.some.injEq] at hs; subst hs
+      constructor <;> dsimp only
+      · exact h.rep
+      · exact h.fresh
+      · exact h.old
+      · intro hn; rw [hm] at hn; cases hn
+      · intro x hx
+        rw [hm] at hx; cases hx
+        obtain ⟨a, b, _, d, e, f, g'⟩ := h.cur g hm
+        exact ⟨a, b, fun _ => (by simp [expectedTopic, hatt]), d, e, f, g'⟩
+      · exact h.dl
+    · cases hs
+  | actorDeleteDirect i =>
+    simp only [step] at hs
+    split at hs
+    · cases hs
+    · rename_i g hg
+      split at hs
+      · cases hs
+      · rename_i hdead
+        have hdead' : s.tdead = true := by simpa using hdead
+        split at hs
+        · cases hs
+        · rename_i hw
+          have hfin : (s.gen g).att = .finished := by
+            have hr := h.rep
+            by_cases hc : (s.gen g).att = .finished
+            · exact hc
+            · exact absurd ⟨hr, hc⟩ hw
+          split at hs
+          · simp only [Option.some.injEq] at hs; subst hs
+            exact ⟨h.rep, h.fresh, h.old, h.empty, h.cur, fun x hx => h.dl x (List.mem_of_mem_eraseIdx hx)⟩
+          · rename_i hd
+            simp only [Option.some.injEq] at hs; subst hs
+            have hd' : (s.gen g).deleted = false := by simpa using hd
+            have hm := active_is_cur h g (Or.inr (Or.inr ⟨hfin, hd'⟩))
+            obtain ⟨hlt, c2, c3, c4, c5, c6, c7⟩ := h.cur g hm
+            have hh : (s.gen g).helper = .none := by
+              cases hx : (s.gen g).helper <;> first | rfl | (have := c7.mpr (by rw [hx]; simp); rw [hd'] at this; cases this)
+            constructor <;> dsimp only
+            · exact h.rep
+            · intro x hx
+              rw [upd_other _ _ _ _ (by omega)]; exact h.fresh x hx
+            · intro x hx _
+              by_cases hxg : x = g
+              · subst hxg; rw [upd_same]; exact ⟨hfin, rfl, rfl⟩
+              · rw [upd_other _ _ _ _ hxg]
+                exact h.old x hx (by rw [hm]; intro hc; cases hc; exact hxg rfl)
+            · intro _
+              exact ⟨fun hc => (by rw [hdead'] at hc; cases hc), (by rw [c2]; simp [expectedMb, hfin, hh])⟩
+            · intro x hx; cases hx
+            · exact fun x hx => h.dl x (List.mem_of_mem_eraseIdx hx)
 
 theorem inv_reachable (s : State) (hr : Reachable (init true) s) : AttachInv s := by
   induction hr with
